@@ -502,12 +502,14 @@ func (runInfo *runInfoStruct) makeCallArgs(rt reflect.Type, isRunVMFunction bool
 			return nil, false
 		}
 
+		// keep the slice: runInfo.rv is overwritten by every converted argument
+		sliceValue := runInfo.rv
 		indexSlice := 0
 		for indexInReal < numInReal {
 			if isRunVMFunction {
-				args = append(args, reflect.ValueOf(runInfo.rv.Index(indexSlice)))
+				args = append(args, reflect.ValueOf(sliceValue.Index(indexSlice)))
 			} else {
-				runInfo.rv, runInfo.err = convertReflectValueToType(runInfo.rv.Index(indexSlice), rt.In(indexInReal))
+				runInfo.rv, runInfo.err = convertReflectValueToType(sliceValue.Index(indexSlice), rt.In(indexInReal))
 				if runInfo.err != nil {
 					runInfo.err = newStringError(callExpr.SubExprs[indexExpr],
 						"function wants argument type "+rt.In(indexInReal).String()+" but received type "+runInfo.rv.Type().String())
